@@ -590,6 +590,10 @@ func RunCheck(o Options) int {
 				classes[r.Class] = true
 			}
 		}
+		if o.OnlyCases != "" && r.Sample != nil {
+			sb, _ := json.MarshalIndent(r.Sample, "  ", " ")
+			fmt.Printf("  [%s] %s %s\n  sample: %s\n", r.Verdict, r.ID, Clip(r.Msg, 300), sb)
+		}
 		if r.Sample != nil && len(samples) < 4 {
 			samples = append(samples, r.Sample)
 		}
